@@ -46,7 +46,7 @@ def quiet(func):
     ast.fix_missing_locations(tree)
     g = func.__globals__
     loc = {}
-    exec(compile(tree, f'<{func.__qualname__} without logging>', 'exec'), g, loc)
+    exec(compile(tree, f'<repo:{func.__qualname__} without logging>', 'exec'), g, loc)
     f = loc[func.__name__]
     f._cuts = st.cuts
     return f
